@@ -42,7 +42,7 @@ func shelfIdentity(dir string) string {
 // placeExec: recipe "place <ops> <fileset>"; ops is a comma list of
 //
 //	u:<mode>:<pre>        Unpack the ware into a fresh destination (pre-state absent|junk|foreign) and check it (C10)
-//	p:<copy|mountrw|bindro>  place from the shelf with the placer API (C11)
+//	p:<copy|copyro|mountrw|bindro>  place from the shelf with the placer API (C11)
 //	w:<i>:<kind>          mutate inside placement i (write|delete|chmod|chown|rename|mkdir|truncate)
 //	t:<i>                 tear placement i down
 //	other                 unpack another ware through the same cache
@@ -232,6 +232,8 @@ func placeExec(c *Ctx, op string) {
 			switch x[1] {
 			case "copy":
 				jan, e = placer.CopyPlacer(fs.MustAbsolutePath(shelf), fs.MustAbsolutePath(d), true)
+			case "copyro": // the placer API allows writable=false for a copy as well
+				jan, e = placer.CopyPlacer(fs.MustAbsolutePath(shelf), fs.MustAbsolutePath(d), false)
 			case "mountrw":
 				var pfn placer.Placer
 				pfn, e = placer.GetMountPlacer()
@@ -320,7 +322,7 @@ func placeExec(c *Ctx, op string) {
 			}
 			pls[i].mounted = false
 			// after teardown of a mount placement: no mount remains, the content is no longer shown
-			if pls[i].kind != "copy" {
+			if pls[i].kind != "copy" && pls[i].kind != "copyro" {
 				if mounted(pls[i].dst) {
 					c.PropFail("mount-left", "a mount remains at the destination after teardown", op)
 				}
@@ -387,7 +389,7 @@ func placeEngine(c *Ctx) {
 	}
 	modes := []string{"direct", "copy", "none", "mount"}
 	pres := []string{"absent", "junk", "foreign"}
-	places := []string{"copy", "mountrw", "bindro"}
+	places := []string{"copy", "mountrw", "bindro", "copyro"}
 	writes := []string{"write", "truncate", "delete", "chmod", "chown", "rename", "mkdir", "utimes"}
 	for k := 0; k < n; k++ {
 		var fsx Fileset
@@ -399,6 +401,18 @@ func placeEngine(c *Ctx) {
 			if k%3 == 0 { // root owned by the process itself, the shape a reused destination would betray
 				fsx[0].Uid, fsx[0].Gid = uint32(os.Getuid()), uint32(os.Getgid())
 			}
+		}
+		if k == 0 || k == 7 || (k > 14 && k%9 == 0) {
+			// symlinks to directories of the ware itself — named so that they sort after their targets, relative and
+			// absolute (re-rooted), each with an mtime of its own
+			t := int64(1100000000 + c.Intn(1000000))
+			fsx = Fileset{{Name: "", Kind: 'd', Perms: 0755, Uid: 3, Gid: 4, Sec: t},
+				{Name: "data", Kind: 'd', Perms: 0750, Uid: 3, Gid: 4, Sec: t - 86400*900, Nsec: 5},
+				{Name: "data/f", Kind: 'f', Perms: 0644, Uid: 3, Gid: 4, Sec: t - 50, Content: []byte("f")},
+				{Name: "data/sub", Kind: 'd', Perms: 0700, Uid: 5, Gid: 4, Sec: t - 86400*30},
+				{Name: "latest", Kind: 'L', Perms: 0777, Uid: 3, Gid: 4, Sec: t + 86400*700, Link: "data"},
+				{Name: "zabs", Kind: 'L', Perms: 0777, Uid: 3, Gid: 4, Sec: t + 86400*300, Link: "/data/sub"},
+				{Name: "zfile", Kind: 'L', Perms: 0777, Uid: 3, Gid: 4, Sec: t + 86400*100, Link: "data/f"}}
 		}
 		var ops []string
 		if k%6 == 3 {
@@ -425,7 +439,8 @@ func placeEngine(c *Ctx) {
 		}
 		// C11: placements, writes, teardowns, placements again
 		np := 0
-		for _, fixed := range []string{"p:mountrw", "w:1000:truncate", "w:1000:chmod", "w:1000:chown", "w:1000:utimes", "t:1000", "p:copy", "w:1001:write", "p:bindro", "w:1002:chmod"} {
+		for _, fixed := range []string{"p:mountrw", "w:1000:truncate", "w:1000:chmod", "w:1000:chown", "w:1000:utimes", "t:1000", "p:copy", "w:1001:write", "p:bindro", "w:1002:chmod",
+			"p:copyro", "w:1003:chmod", "w:1003:chown", "w:1003:write", "w:1003:utimes", "t:1003"} {
 			ops = append(ops, fixed)
 			if strings.HasPrefix(fixed, "p:") {
 				np++
@@ -434,7 +449,7 @@ func placeEngine(c *Ctx) {
 		for i := 0; i < maxOps; i++ {
 			switch c.Intn(4) {
 			case 0:
-				ops = append(ops, "p:"+places[c.Intn(3)])
+				ops = append(ops, "p:"+places[c.Intn(len(places))])
 				np++
 			case 1, 2:
 				if np > 0 {
